@@ -93,14 +93,14 @@ Proof.
   - intros A d fs es r fs' os H. eapply unsupported_history; exact H.
 Qed.
 
-(* Executing a read, write or fsync whose descriptor is not open gives -EBADF
-   and leaves the file system and the buffer alone. *)
+(* Executing a read, write or fsync whose descriptor is not open (or was not
+   opened with the access the operation needs) gives -EBADF and leaves the file
+   system and the buffer alone. *)
 Theorem c18_closed_file : forall (A : fsapi) (fs : FS A) fd off len d,
-  fs_open A fs fd = false ->
-  exec A fs (ARead fd off len) = (fs, EBADF, []) /\
-  exec A fs (AWrite fd off d) = (fs, EBADF, []) /\
-  exec A fs (AFsync fd) = (fs, EBADF, []).
-Proof. intros A fs fd off len d H. cbn. rewrite H. auto. Qed.
+  (fs_ok A fs fd URead = false -> exec A fs (ARead fd off len) = (fs, EBADF, [])) /\
+  (fs_ok A fs fd UWrite = false -> exec A fs (AWrite fd off d) = (fs, EBADF, [])) /\
+  (fs_ok A fs fd USync = false -> exec A fs (AFsync fd) = (fs, EBADF, [])).
+Proof. intros A fs fd off len d. cbn. repeat split; intros H; now rewrite H. Qed.
 
 (* Crash empties the ring registry and by itself does not touch the file
    system.  From then on every event addressed to a ring that existed before
@@ -135,7 +135,7 @@ Definition wr : sqe := {| s_op := Write 0 1 [5; 6]; s_ud := 11; s_flags := 0 |}.
 Definition rd : sqe := {| s_op := Read 0 0 4; s_ud := 12; s_flags := 0 |}.
 Definition cn : sqe := {| s_op := Cancel 11; s_ud := 13; s_flags := 0 |}.
 Definition pre : list (hev CFS) :=
-  [CFs (x_open 0 0); CNew 2; CRing 0 (Push wr); CRing 0 (Push rd); CRing 0 (Push rd); CRing 0 (Submit 0 [100; 100])].
+  [CFs (x_open 0 0 3); CNew 2; CRing 0 (Push wr); CRing 0 (Push rd); CRing 0 (Push rd); CRing 0 (Submit 0 [100; 100])].
 Definition drain (t : N) (order : list N) : list (hev CFS) :=
   [CRing 0 CqNew; CRing 0 (Sync t); CRing 0 (Next t order); CRing 0 (Next t order); CRing 0 (Next t order); CFs (x_dump 0)].
 Example c18_nonvacuous :
